@@ -55,6 +55,8 @@ def smaller(t):
             yield ("a", t[1], v)
     else:
         w = t[1]
+        if "$" in w:                            # a reference into the type table: see shrink_prog
+            return
         if len(w) == 2 and w[1].isdigit():      # vector: fewer components, then the scalar
             if int(w[1]) > 2:
                 yield ("l", w[0] + str(int(w[1]) - 1))
@@ -81,9 +83,29 @@ def shrink_types(tys):
             yield tys[:i] + [show(v)] + tys[i + 1:]
 
 
+REF = re.compile(r"(c?)\$(\d+)")
+
+
+def refs_of(ty):
+    return {int(m.group(2)) for m in REF.finditer(ty)}
+
+
+def drop_entry(tys, sites, k):
+    """the request without entry k of the type table (nothing may refer to it): later indices move down"""
+    def down(j):
+        return j - (1 if j > k else 0)
+    nt = [REF.sub(lambda m: "%s$%d" % (m.group(1), down(int(m.group(2)))), t) for i, t in enumerate(tys) if i != k]
+    ns = []
+    for x in sites:
+        a, b = x.split("@")
+        ns.append("%s@%d" % (a, down(int(b))))
+    return nt, ns
+
+
 def shrink_prog(f):
     head, tys, sites = f[1], f[2].split(";"), f[3].split(",")
     target, mode, style = head.split(":")
+    shared = any("$" in t for t in tys)
     # plain spelling, Vulkan, no pipeline
     if style != "0":
         yield "\t".join([f[0], ":".join([target, mode, "0"]), f[2], f[3]])
@@ -95,15 +117,26 @@ def shrink_prog(f):
     if len(sites) > 1:
         for i in range(len(sites)):
             yield "\t".join([f[0], head, f[2], ",".join(sites[:i] + sites[i + 1:])])
-    # drop a type nobody uses (re-index the sites)
+    # drop a type nobody uses: no site and no other entry of the table (re-index the sites and the references)
     used = {int(x.split("@")[1]) for x in sites}
+    for t in tys:
+        used |= refs_of(t)
     for k in range(len(tys)):
         if k not in used and len(tys) > 1:
-            ns = []
-            for x in sites:
-                a, b = x.split("@")
-                ns.append("%s@%d" % (a, int(b) - (1 if int(b) > k else 0)))
-            yield "\t".join([f[0], head, ";".join(tys[:k] + tys[k + 1:]), ",".join(ns)])
+            nt, ns = drop_entry(tys, sites, k)
+            yield "\t".join([f[0], head, ";".join(nt), ",".join(ns)])
+    if shared:
+        # a site at another name of the same type (`$j` / `c$j` as a whole entry) -> at the type itself
+        for i, x in enumerate(sites):
+            a, b = x.split("@")
+            m = REF.fullmatch(tys[int(b)].strip())
+            if m:
+                yield "\t".join([f[0], head, f[2], ",".join(sites[:i] + ["%s@%s" % (a, m.group(2))] + sites[i + 1:])])
+        # a copy instead of the shared definition: one reference at a time
+        for k, t in enumerate(tys):
+            for m in REF.finditer(t):
+                if m.group(1) == "" and not REF.fullmatch(t.strip()):
+                    yield "\t".join([f[0], head, ";".join(tys[:k] + [t[:m.start()] + tys[int(m.group(2))] + t[m.end():]] + tys[k + 1:]), f[3]])
     for v in shrink_types(tys):
         yield "\t".join([f[0], head, ";".join(v), f[3]])
 
@@ -181,6 +214,20 @@ def search(ctx):
         for w in ("dt", "dta"):
             reqs.append("C19.prog\tvk:np:0\t{f f2}\t%s.%s@0" % (k, w))
             reqs.append("C19.prog\tmsl:pipe:0\t{f f};{f f2}\t%s.%s@0,sb@1" % (k, w))
+    # one struct definition shared by two checked structs / used twice in one: a first use whose layout is hidden in
+    # padding, then one where it decides (any state kept between the layout queries)
+    pre = ["", "h ", "u ", "d "]
+    post = ["", " h", " f", " u", " d"]
+    for e in ("{}", "{h}", "{f2 f}", "{{}}"):
+        for a in pre:
+            for b in post:
+                for c in pre:
+                    for d in post:
+                        A, B = "{%s$0%s}" % (a, b), "{%s$0%s}" % (c, d)
+                        reqs.append("C19.prog\tvk:np:0\t%s;%s;%s\tsb@1,sb@2" % (e, A, B))
+                        if e == "{}":
+                            reqs.append("C19.prog\tvk:np:0\t%s;%s;%s\tbload.m@1,rwbload.u@2" % (e, A, B))
+                            reqs.append("C19.prog\tvk:np:0\t%s;{%s$0%s %s$0%s}\tsb@1" % (e, a, b, c, d))
     return reqs
 
 
@@ -302,8 +349,8 @@ def custom(ctx):
 SPEC = {
     "id": "C19",
     "custom": custom,
-    "gens": ["LayoutTables", "LayoutSites"],
-    "lean_modules": ["RsslVerif.Thm.C19"],
+    "gens": ["LayoutTables", "LayoutSites", "LayoutPurity"],
+    "lean_modules": ["RsslVerif.Thm.C19", "RsslVerif.Lemmas.LayoutContext"],
     "theorems": [T + n for n in [
         "tables_pinned", "checked_sites", "get_matches_spec", "check_sound_agree", "check_sound",
         "reported_sizes_true", "rejected_differs", "check_complete", "check_total", "check_never_panics",
@@ -311,6 +358,7 @@ SPEC = {
         "agree_iff_same_size_and_offsets", "rejected_really_differs", "check_complete_fields",
         "collection_sites_covered", "diagnostic_pinned", "property_uses_collected_partial", "check_layout_sound_partial",
         "check_layout_reports_true_sizes",
+        "layout_functions_are_pure", "layout_is_context_free", "check_layout_order_free",
         "check_sound_full", "reported_sizes_true_full", "check_never_panics_full", "no_layout_no_verdict",
         "no_layout_is_unknown", "check_complete_partial",
         "complete_fails_beyond_plain",
@@ -333,7 +381,13 @@ SPEC = {
                   "arrays of structured buffers (collected since /repo d99f90e + bdddd35, whatever modifiers sit between the "
                   "array layers) are covered by the positive theorems. One hole remains, reproduced on the real compiler (known "
                   "finding): a buffer inside a global struct is not collected (the abstract module cannot express it, so the "
-                  "collection theorems are named _partial). The model is compared with the real compile() on "
+                  "collection theorems are named _partial). No state between layout queries: the layout functions are functions "
+                  "of (module, type id, packing mode) alone - no &mut parameter, no static / cell / map, read-only module "
+                  "accessors (layout_functions_are_pure, from the re-read text), so the verdict for a type does not depend on what "
+                  "was laid out or checked before it and acceptance does not depend on the order of the declarations "
+                  "(layout_is_context_free, check_layout_order_free); the correspondence run exercises exactly that on the real "
+                  "compiler with type tables that SHARE struct / enum / typedef definitions between several checked types. "
+                  "The model is compared with the real compile() on "
                   "generated whole programs and the property's own oracle (independent Rust calculators, themselves compared with "
                   "the Lean reference on every run) judges the real verdicts and diagnostics.",
     "rule": "two request kinds. C19.check = (use kind, list of element types) as before. C19.prog = (target vk|dx|msl, pipeline "
@@ -350,19 +404,35 @@ SPEC = {
             "site kind x target x mode with a differing structure; every leaf type of the widened universe in 3-5 shapes; every "
             "flat struct of 1-2 members over 21 leaf types (3 members: sampled / exhaustive in thorough); random: structs to "
             "depth 3 (chains to depth 7), 0-6 members, arrays 1-4 in up to 3 dimensions, programs with 1-3 types and 1-5 sites, "
-            "half of them with all structures agreeing but one. non-trivial = some type has at least two members",
+            "half of them with all structures agreeing but one. Type tables with shared definitions: an entry may name an "
+            "earlier entry ($k = the same struct / enum / typedef'd array definition, i.e. the same StructId / TypeId, as a "
+            "member, an array element, several times in one struct; a whole entry $k / c$k = another typedef name of entry k / "
+            "of the const-qualified entry k); the oracle and the model see the expanded structures. Streams: S1 one shared "
+            "definition (12 kinds: empty struct, small structs, nested empty, enum, typedef'd array, vector) in two checked "
+            "structs, every ordered pair of 36 alignment contexts (pre in none/h/u/f2/d/h3, post in none/h/f/u/f2/d), 12 pairs "
+            "of use sites (which of the two is checked first varies), now and then the shared struct checked itself before / "
+            "between / after; S2 the same two contexts inside one struct (exhaustive for the empty struct, sampled 1/12 "
+            "otherwise in quick, exhaustive in thorough); S3 random tables of 3-6 entries built from earlier entries, 2-5 "
+            "sites in random order (1200 quick / 40000 thorough); S4 one struct under four names (itself, typedef, typedef of "
+            "const, typedef of that) at two of 15 site kinds incl. first use in a function nobody calls. "
+            "non-trivial = some type has at least two members",
     "trusted_base": [
         "Lean 4.33 kernel; axioms propext / Classical.choice / Quot.sound only (audited by #print axioms)",
         "tools/gens/c19.py: LayoutTables (ScalarType::get_size, the arms of get_type_layout and of offsets_match as op programs "
         "over a fixed statement vocabulary incl. the checked_* forms, check_layout's top-level adjustments, comparison, matched "
         "objects and intrinsics, the statements that peel a global's type, the is_dependent_type skip) and "
+        "LayoutPurity (every fn signature of layout_checker.rs, &mut parameters, mutable locals, closures, tokens of shared / "
+        "interior-mutable state and containers, accessors called on the module, macros; descriptive: a cache threaded "
+        "through the functions still translates and then layout_functions_are_pure fails) and "
         "LayoutSites (ObjectType variants, get_structured_type users, the T-templated object methods of intrinsic_data.rs, the "
         "fixed text of the two collection loops, of get_type_location / remove_modifier / get_non_array_id / "
         "is_dependent_type, of compile()'s validation statement and of the two "
         "diagnostics) - re-run on /repo's working tree every time; any other text is a broken obligation",
         "Model/Layout.lean + Model/LayoutCollect.lean: interpreter of the op programs, the recursion skeletons and the two "
         "collection loops; Driver/C19.lean::moduleOf: how the type checker turns the generated programs into globals and "
-        "intrinsic instantiations (order, type ids) - all tied to the code by the correspondence run only",
+        "intrinsic instantiations (order, type ids; a typedef is the same type id, a const-qualified type has its own, one "
+        "for all its spellings; a reference $k is replaced by the structure it names) - all tied to the code by the "
+        "correspondence run only",
         "Spec/Layout.lean, Spec/LayoutFull.lean and the Rust reference calculators in harness/src/c19.rs: our reading of HLSL "
         "structured-buffer packing and of the Metal layout rules (MSL spec 2.2-2.4; bool 4 vs 1 byte; matrix = columns of "
         "vectors as emitted by the MSL exporter; empty struct 0 vs 1 byte); the Lean and Rust versions are compared on 1545 "
@@ -378,6 +448,10 @@ SPEC = {
         "a global (possibly an array element or a struct member) - a function parameter of buffer type that nothing is "
         "passed to is not judged; ConstantBuffer<T>, cbuffer members and TriangleStream<T> are not named by the property",
         "static struct members are laid out like ordinary members because the compiler treats and emits them as such on both targets",
+        "layout_functions_are_pure is a statement about the text of layout_checker.rs (signatures, bindings, tokens, "
+        "accessor names) and of TypeRegistry::get_type_layer; that the other read-only accessors of the registries do not "
+        "mutate anything is by their names and &self receivers, not re-read (the type registry does keep its layers in a "
+        "RefCell; only register_type borrows it mutably)",
         "Metal has no double; the Metal reference treats double like any other scalar (size = alignment = 8); programs "
         "whose compilation fails after an accepting layout check are not judged (the property's premise is false); the "
         "MetalBytecode target needs the Metal compiler and is not exercised",
